@@ -900,6 +900,11 @@ def make_free_cases(rng, n, tier):
     cases = []
     while len(cases) < n:
         exact = len(cases) % 2 == 0
+        if len(cases) % 16 == 6:                      # targeted family "discount-sensitive fallback"
+            m = make_flip_instance(rng, kb=20, mode="free")
+            cases.append({"m": m, "rep": dict(REPS[rng.randrange(len(REPS))]), "seed": rng.randrange(10 ** 6),
+                          "randomize": rng.random() < 0.5, "iterations": 4000, "exact": True})
+            continue
         fam = rng.choice(FAMS_MC[:5]) if exact else rng.choice(FAMS_FLOAT)
         r = base_instance(rng, dict(fam, rand=0), small=False)
         if r is None:
@@ -952,11 +957,85 @@ CORNER_D3 = {"N": 4, "K": 3, "PD": 2, "GN": 1, "GD": 1, "ID": 4, "abs": [0, 0, 1
              "i0": [1, 0, 0, 0], "oracle": 1, "mode": "mc"}
 
 
+def make_flip_instance(rng, *, kb=KB, mode="mc"):
+    """Targeted family "discount-sensitive fallback": discount 1/2 or 3/4, heuristic = exact V* (plus slack below
+    the margin at some states).  s0 has a stochastic action x whose outcomes are an absorbing state g and a state
+    u; under the histories in which u is never sampled, u (and w behind it) are labelled by _check_solved alone
+    and never stored, so the returned policy at u comes from the fallback look-ahead.  At u two actions compete:
+    a goes to g, b goes to w (worth -v or +v), with immediate rewards such that r + gamma*V(ns) and r + V(ns)
+    rank them in opposite orders, the loss of the wrong one being a multiple of the margin."""
+    g_n, g_d = rng.choice([(1, 2), (1, 2), (3, 4)])
+    v = 8 if (g_n, g_d) == (3, 4) else rng.choice([4, 8])
+    sign = rng.choice([-1, -1, 1])                     # w is worth sign * v
+    mid = math.ceil(v * (1 + F(g_n, g_d)) / 2)
+    rb = rng.choice([0, -1, 1])
+    ra = rb + sign * mid
+    perm = list(range(4))
+    rng.shuffle(perm)
+    s0, u, w, g = perm
+    K = 2
+    N = 4
+    avail = [[0, 0] for _ in range(N)]
+    P = [[[0] * N for _ in range(K)] for _ in range(N)]
+    R = [[[0] * N for _ in range(K)] for _ in range(N)]
+    # s0: x -> {u, g} with probability 1/2 each; optionally a second, clearly worse action straight to g
+    x = rng.randrange(2)
+    avail[s0][x] = 1
+    P[s0][x][u], P[s0][x][g] = 1, 1
+    R[s0][x][u], R[s0][x][g] = rng.choice([0, -1]), rng.choice([0, -1, -2])
+    if rng.random() < 0.5:
+        avail[s0][1 - x] = 1
+        P[s0][1 - x][g] = 2
+        R[s0][1 - x][g] = -20
+    # u: a -> g, b -> w
+    a = rng.randrange(2)
+    avail[u] = [1, 1]
+    P[u][a][g] = 2
+    R[u][a][g] = ra
+    P[u][1 - a][w] = 2
+    R[u][1 - a][w] = rb
+    # w: one action to g worth sign * v
+    c = rng.randrange(2)
+    avail[w][c] = 1
+    P[w][c][g] = 2
+    R[w][c][g] = sign * v
+    # g: absorbing, ghost dynamics back into the non-absorbing part
+    avail[g] = [1, 1]
+    for k in range(K):
+        P[g][k][rng.choice([s0, u, w, g])] = 2
+        R[g][k] = [rng.choice([-3, 0, 4]) for _ in range(N)]
+    p0 = [0] * N
+    p0[s0] = 2
+    m = {"N": N, "K": K, "PD": 2, "GN": g_n, "GD": g_d, "ID": 2, "abs": [1 if t == g else 0 for t in range(N)],
+         "avail": avail, "P": P, "R": R, "p0": p0}
+    vs = pyoracle.optimal_value(m)
+    eps = F(1, rng.choice([8, 16]))
+    sc = 2 ** kb
+    h = []
+    for t in range(N):
+        if t == g:
+            h.append(rng.choice([F(0), F(2), F(5)]))
+        else:
+            h.append(vs[t] + rng.choice([F(0), F(0), eps / 2]))
+    aord = []
+    for t in range(N):
+        av = [k + 1 for k in range(K) if avail[t][k]]
+        rng.shuffle(av)
+        aord.append(av)
+    m.update(KB=kb, EPS=int(eps * sc), L=rng.choice([3, 4, 10 ** 6]) if mode != "mc" else rng.choice([3, 4]),
+             h=[int(y * sc) for y in h], hkind="flip", rand=0, aord=aord, zl=0, lst=[1] * N,
+             i0=[1 if q > 0 else 0 for q in p0], oracle=1, mode=mode)
+    assert all(int(y * sc) == y * sc for y in h)
+    return m
+
+
 def make_mc_batch(rng, n, tier, corner=False, budget=None, cap=None, ctx=None):
     """n instances whose machines have at most `cap` states each and about `budget` states together."""
     cap = cap or (1500 if tier == "quick" else 6000)
     budget = budget or (n * 225 if tier == "quick" else n * 500)
     batch = [dict(CORNER_D3)] if corner else []
+    if corner:                                        # targeted family, in every first batch
+        batch += [make_flip_instance(rng) for _ in range(12 if tier == "quick" else 60)]
     total = 0
     while len(batch) < n and total < budget:
         m = make_mc_instance(rng, FAMS_MC[len(batch) % len(FAMS_MC)], tier)
